@@ -509,12 +509,13 @@ MCmpMag(op, l, kl, r, kr, conv) ==
       Or3(p, q) == IF p = "T" \/ q = "T" THEN "T" ELSE IF p = "U" \/ q = "U" THEN "U" ELSE "F"
       Not3(p) == IF p = "T" THEN "F" ELSE IF p = "F" THEN "T" ELSE "U"
   IN CASE op = "==" -> close
-       [] op = "!=" -> Not3(IF c = 2 THEN "U" ELSE IF c # 0 \/ dk # 0 THEN "F" ELSE IF conv THEN "U" ELSE "T")
+       [] op = "!=" -> Not3(close)                   \* BooleanType(not self.__eq__(other))  (since 8f6fac5)
        [] op = "<"  -> lt
        [] op = ">"  -> gt
        [] op = "<=" -> Or3(lt, close)
        [] op = ">=" -> Or3(gt, close)
 
+Neg3(p) == IF p = "T" THEN "F" ELSE IF p = "F" THEN "T" ELSE p
 ResType(op) == IF op = "==" THEN "np" ELSE "BT"
 \* self.convert(unit): only when both sides carry a unit and they differ; raises across dimensions
 NeedsConv(from, to) == from # "" /\ to # "" /\ from # to
@@ -527,7 +528,7 @@ MCmpNum(op, x, y) ==
   IF x.kind = "lit" /\ y.kind = "lit" THEN
        \* _prepare: self.value = float(self.value); other stays a STRING, units are ignored
        IF op = "==" THEN MR(MCmpMag("==", AMag(x), x.k, AMag(y), y.k, FALSE), "np", {"lit_vs_lit"})
-       ELSE IF op = "!=" THEN MR("T", "BT", {"lit_vs_lit"})           \* float != str
+       ELSE IF op = "!=" THEN MR(Neg3(MCmpMag("==", AMag(x), x.k, AMag(y), y.k, FALSE)), "BT", {"lit_vs_lit"})
        ELSE MErr({"lit_vs_lit"})                                       \* float < str : TypeError
   ELSE IF x.kind # "lit" /\ y.kind # "lit" /\ x.kind # y.kind THEN
        MErr({"inode_vs_fnode"})                                        \* raise Exception(.., expr): NameError
@@ -602,7 +603,8 @@ NumPairFeatures(op, x, y) ==
       rmag == IF x.kind = "lit" /\ y.kind # "lit" THEN AMag(y)
               ELSE IF y.kind = "lit" /\ x.kind # "lit" THEN MagIn(y, x.u) ELSE AMag(y)
   IN (IF op = "!=" /\ eqbase /\ adk <= 9 /\ ~(adk = 0 /\ x.u = y.u) THEN {"ne_within_tolerance"} ELSE {})
-     \cup (IF op \in {"==", "<=", ">="} /\ eqbase /\ adk >= 12 /\ ~IsBad(rmag) /\ QCmp(QAbs(rmag), Q(1, 1, -2)) <= 0
+     \* (!= is listed too: it is exact today, but it is the negation of == in the documentation)
+     \cup (IF op \in {"==", "!=", "<=", ">="} /\ eqbase /\ adk >= 12 /\ ~IsBad(rmag) /\ QCmp(QAbs(rmag), Q(1, 1, -2)) <= 0
            THEN {"eq_abs_tolerance"} ELSE {})
 CmpFeatures(tr, p) ==
   LET h == tr[p] IN
